@@ -27,7 +27,7 @@ COMPONENTS = {"real": ["MemoryWorkflowStore / SqliteWorkflowStore append_event, 
               "stub": ["llama_index_instrumentation"], "sim": ["loop, clock, appender/subscriber tasks, recording adapter"]}
 ASSUMPTIONS = ["append order = order of append_event calls (each call is atomic between awaits)",
                "a subscriber whose cursor is at or past the last terminal event may wait forever (statement: it ends right after the first terminal event it yields)"]
-EXPECTED_PROBES = ["subscriber-waiting-during-append", "subscribe-after-terminal-appended", "events-after-terminal", "leg2-concurrent-stream-writes", "sqlite-poll-wakeup"]
+EXPECTED_PROBES = ["leg3-now-during-appends", "leg3-last-event-id-overrides", "leg3-204", "leg3-ndjson", "subscriber-waiting-during-append", "subscribe-after-terminal-appended", "events-after-terminal", "leg2-concurrent-stream-writes", "sqlite-poll-wakeup"]
 LEVEL_TEXT = "Seeded exploration of append/subscribe interleavings with the cursor dimension enumerated per log, plus a differential check of stored vs. published order on the server stack."
 LEVEL_NOTE = "Trusted: simulator loop/clock, recording adapter."
 
@@ -38,8 +38,11 @@ CFG2 = {"driver": "finish", "p_stream": 70, "p_retry": 20, "p_fail": 15, "fan_ma
 
 
 def run(tape):
-    if tape.draw(3, "leg") == 0:
+    leg = tape.draw(6, "leg")
+    if leg in (0, 1):
         return _leg2(tape)
+    if leg == 2:
+        return _leg3(tape)
     return _leg1(tape)
 
 
@@ -200,3 +203,170 @@ def _leg2(tape):
             world.probe("leg2-concurrent-stream-writes")
         world._nt = conc
     return engine_common.simulate(tape, CFG2, check, gen=gen_spec, scenario=scenario, nontrivial=lambda w, s, o: w._nt, world_cls=ServerWorld)
+
+
+def _leg3(tape):
+    """HTTP cursor resolution: now / integer / Last-Event-ID through the real endpoint (no wire faults)."""
+    import json as _json
+    from worlds.net import ConnPlan, NetWorld
+    n = tape.rng_int(1, 7, "n")
+    has_term = tape.chance(80, 100, "has-term")
+    poll = 64 * T
+    gaps = [0, 0, T, 8 * T, poll - T, poll, poll + T]
+    plan = [{"i": i, "gap": tape.choice(gaps, "gap"), "term": has_term and i == n - 1} for i in range(n)]
+    readers = []
+    for k in range(tape.rng_int(1, 3, "readers")):
+        readers.append({"who": f"r{k}", "after": tape.choice(["absent", "now", "now", "int", "int", "bad"], "after"), "k": tape.rng_int(-1, n, "k"),
+                        "lei": tape.choice(["absent", "absent", "int", "garbage"], "lei"), "j": tape.rng_int(-1, n, "j"),
+                        "sse": tape.chance(75, 100, "sse"), "start": tape.choice(gaps + [3 * poll], "start") * tape.rng_int(0, 3, "start.mul")})
+
+    async def scenario(world):
+        import httpx
+        from llama_agents.client.protocol.serializable_events import EventEnvelopeWithMetadata
+        from llama_agents.server._store.abstract_workflow_store import PersistentHandler
+        inc = world.new_incarnation()
+        await inc.start()
+        api = world.make_api(inc, sse_heartbeat_interval=tape.choice([None, 16 * T], "heartbeat"))
+        await inc.call(inc.store.update(PersistentHandler(handler_id="h1", workflow_name="wf", status="running", run_id="r1")))
+        _, tr, hc = world.make_client(inc, api, lambda *a: ConnPlan())
+        appended = [-1]
+        appending = [False]
+
+        async def appender():
+            appending[0] = True
+            for p in plan:
+                if p["gap"]:
+                    await asyncio.sleep(p["gap"])
+                ev = EV.Stop1(uid=p["i"]) if p["term"] else EV.E0(uid=p["i"])
+                await inc.store.append_event("r1", EventEnvelopeWithMetadata.from_event(ev))
+                appended[0] = p["i"]
+                world.trace.log("append", i=p["i"], term=p["term"])
+            appending[0] = False
+
+        async def reader(r, res):
+            if r["start"]:
+                await asyncio.sleep(r["start"])
+            params = {"sse": "true" if r["sse"] else "false"}
+            if r["after"] == "now":
+                params["after_sequence"] = "now"
+            elif r["after"] == "int":
+                params["after_sequence"] = str(r["k"])
+            elif r["after"] == "bad":
+                params["after_sequence"] = "soon"
+            headers = {}
+            if r["lei"] == "int":
+                headers["Last-Event-ID"] = str(r["j"])
+            elif r["lei"] == "garbage":
+                headers["Last-Event-ID"] = "abc"
+            res.update({"at_request": appended[0], "during": appending[0], "items": [], "status": None, "ended": False, "started": True})
+            world.trace.log("http-request", who=r["who"], after=params.get("after_sequence"), lei=headers.get("Last-Event-ID"), sse=r["sse"], at=appended[0])
+            async with hc.stream("GET", "/events/h1", params=params, headers=headers, timeout=None) as resp:
+                res["status"] = resp.status_code
+                res["at_response"] = appended[0]
+                world.trace.log("http-response", who=r["who"], status=resp.status_code, at=appended[0])
+                if resp.status_code != 200:
+                    await resp.aread()
+                    res["ended"] = True
+                    return
+                cur = None
+                async for line in resp.aiter_lines():
+                    line = line.strip()
+                    if not line or line.startswith(":"):
+                        continue
+                    if r["sse"]:
+                        if line.startswith("id:"):
+                            cur = line[3:].strip()
+                        elif line.startswith("data:"):
+                            res["items"].append((int(cur) if cur is not None else None, _json.loads(line[5:])["value"].get("uid")))
+                            cur = None
+                    else:
+                        res["items"].append((None, _json.loads(line)["value"].get("uid")))
+                    if res["items"] and cur is None:
+                        world.trace.log("http-item", who=r["who"], item=list(res["items"][-1]))
+                res["ended"] = True
+        results = [{} for _ in readers]
+        tasks = [asyncio.ensure_future(reader(r, res)) for r, res in zip(readers, results)]
+        await inc.call(appender())
+        await asyncio.sleep(max(r["start"] for r in readers) + 6 * poll)
+        for t in tasks:
+            t.cancel()
+        errs = await asyncio.gather(*tasks, return_exceptions=True)
+        await hc.aclose()
+        log = [(e.sequence, e.event.value.get("uid"), "StopEvent" in ((e.event.types or []) + [e.event.type])) for e in await inc.call(inc.store.query_events("r1"))]
+        be = world.backend
+        for r, res, err in zip(readers, results, errs):
+            if isinstance(err, BaseException) and not isinstance(err, asyncio.CancelledError):
+                world.violate("C16.http-error", f"{r['who']}: request raised {type(err).__name__}: {str(err)[:100]}", leg=3)
+                continue
+            if not res.get("started"):
+                continue
+            if r["after"] == "bad" and r["lei"] != "int":
+                # an invalid after_sequence is rejected unless a valid Last-Event-ID ... the endpoint validates after_sequence first
+                if res["status"] != 400:
+                    world.violate("C16.http-bad-cursor", f"{r['who']}: after_sequence='soon' answered {res['status']}", leg=3)
+                continue
+            if r["after"] == "bad":
+                if res["status"] == 400:
+                    continue
+            # effective cursor
+            if r["lei"] == "int" and r["sse"]:
+                cands = [r["j"]]
+                world.probe("leg3-last-event-id-overrides")
+            elif r["after"] == "int":
+                cands = [r["k"]]
+            else:
+                lo = res["at_request"]
+                hi = res.get("at_response", appended[0])
+                cands = list(range(lo, hi + 1))
+                if res["during"]:
+                    world.probe("leg3-now-during-appends")
+            if not r["sse"]:
+                world.probe("leg3-ndjson")
+            ok = False
+            wants = []
+            for c in cands:
+                tail = [x for x in log if x[0] > c]
+                ft = next((k for k, x in enumerate(tail) if x[2]), None)
+                want = tail if ft is None else tail[:ft + 1]
+                wants.append((c, want))
+                got = res["items"]
+                same = [g[1] for g in got] == [x[1] for x in want] and (not r["sse"] or [g[0] for g in got] == [x[0] for x in want])
+                if res["status"] == 204:
+                    world.probe("leg3-204")
+                    same = not want and any(x[2] for x in log)
+                elif res["status"] != 200:
+                    same = False
+                elif want and want[-1][2] and not res["ended"]:
+                    same = False
+                if same:
+                    ok = True
+                    break
+            if not ok:
+                world.violate("C16.http-cursor", f"[{be}] {r['who']} after_sequence={r['after']}({r['k']}) Last-Event-ID={r['lei']}({r['j']}) sse={r['sse']}: status {res['status']}, "
+                              f"items {res['items']}, ended={res['ended']}; acceptable (cursor, items): {[(c, [(x[0], x[1]) for x in w_]) for c, w_ in wants][:3]}; log {log}",
+                              leg=3, after=r["after"], lei=r["lei"], sse=r["sse"])
+        return None
+
+    from sim.loop import SimCap, SimDeadlock
+    import os
+    world = NetWorld(tape, {"quiesce_gap": 30.0, "poll_interval": poll, "backends": ["memory", "sqlite"], "max_steps": 200_000})
+    harness = None
+    try:
+        try:
+            world.loop.run_sim(scenario(world))
+        except SimCap as e:
+            harness = f"cap: {e}"
+        except SimDeadlock as e:
+            harness = f"deadlock: {e}"
+        nt = harness is None and bool(world.probes.get("leg3-now-during-appends") or world.probes.get("leg3-last-event-id-overrides"))
+        res = {"violations": world.violations, "harness": harness, "nontrivial": nt, "shape": world.trace.shape(("who", "after", "lei", "status", "sse")),
+               "faults": dict(world.faults), "probes": dict(world.probes), "sim_time": world.clock.t, "steps": world.loop.steps,
+               "digest": world.trace.digest(), "states": [], "evals": 1}
+        want_t = bool(os.environ.get("VERIF_WANT_TRACE"))
+        if nt or world.violations or want_t:
+            res["sample"] = {"config": {"leg": 3, "backend": world.backend, "plan": plan, "readers": readers}, "trace_excerpt": world.trace.excerpt(40)}
+        if world.violations or want_t:
+            res["trace_excerpt"] = world.trace.excerpt(400)
+        return res
+    finally:
+        world.close()
